@@ -1,0 +1,9 @@
+//go:build verif
+
+package haproxy
+
+// VerifLastFailed reads the lastFailed flag of an instance created by CreateInstance: the
+// last HAProxyUpdate returned an error, so the next one starts from scratch.
+func VerifLastFailed(i Instance) bool {
+	return i.(*instance).lastFailed
+}
